@@ -16,6 +16,10 @@ CHECKS = {
          'TLC proves the transcribed RFC 7541 code (table from x/net) is a complete prefix code and lossless/strict on a boundary alphabet; every call of the real HuffmanEncode/HuffmanDecode on all strings <=2 bytes (thorough: decode <=3 bytes, 16.8M) plus seeded random/mutated strings is recorded and validated line by line by HuffmanTrace.tla. Bounded-exhaustive on the real code, so any table or padding deviation on short strings is certain to be seen.',
          'trusts TLC, the x/net table transcription (cross-checked: spec vs x/net on every input), JSON trace I/O', '6 C15'),
 }
+SRV_NOTE = 'trusts TLC, the RFC7540.tla transcription of RFC 7540 sections 4-6, golang.org/x/net/http2 as the independent peer (framing + HPACK), hook-based quiescence detection (build tag verif), JSON trace I/O'
+CHECKS['C08'] = ('server', 'TLC model of the server stream loop checked against an RFC 7540 reaction oracle; every explored (state, frame) edge replayed in lock-step into the real server; trace validation against the oracle',
+  'H2Server.tla (the server at frame granularity) is model-checked exhaustively to a frame bound with the invariant that every reaction is in RFC7540!Allowed and a request is dispatched only from a complete legal sequence. TLC then emits every (abstract state, peer frame) edge it explored as a scenario; the Go harness replays each into the real server over an in-memory connection with an independent x/net peer, and H2ServerTrace.tla re-derives the RFC stream state from the logged frames and requires the observed reaction (nothing / RST_STREAM(code) / GOAWAY(code) / close) to be in Tolerate(Allowed(state, frame)).',
+  SRV_NOTE, '6 C08')
 NOT_YET = {}
 
 def main():
@@ -49,6 +53,9 @@ def main():
             'add_only': True,
         },
         'engines': [
+            {'name': 'server', 'path': 'spec/RFC7540.tla spec/HttpMsg.tla spec/H2Server.tla spec/H2ServerTrace.tla harness/srvdrv.go harness/memconn.go lib/srvfam.py',
+             'serves_properties': ['C08'],
+             'kind_free_text': 'TLA+ design model of the server connection + RFC oracle; TLC-generated scenarios replayed into the real server (x/net peer, in-memory conn, hook quiescence); TLC trace validation'},
             {'name': 'huffman', 'path': 'spec/Huffman.tla spec/HuffmanModel.tla spec/HuffmanTrace.tla harness/huff.go', 'serves_properties': ['C15'],
              'kind_free_text': 'TLA+ transcription of RFC 7541 Appendix B + TLC trace validation of recorded real-code calls'},
         ],
